@@ -81,16 +81,31 @@ def gen(ctx):
     return single, pipes
 
 
+# the environment the rendering process (`hplain sh`) runs in: `to_cmdline_lossy` prints only what differs from it, and prints
+# variables of it that the command lacks as `NAME=`
+CUR_ENV = [("VERIF_B1", "x"), ("VERIF_OLD", "1"), ("VERIF_KEEP", "keep me")]
+ENV_NAMES = ["VERIF_A", "VERIF_B1", "_V", "VERIF_LONG_NAME", "VERIF_OLD", "VERIF_KEEP"]
+
+
 def gen_env(ctx):
-    """commands with environment overrides: printed as NAME=value words in front of the command"""
+    """commands with environment overrides: printed as NAME=value words in front of the command.  An override is (name, value) for
+    `Exec::env` or (name, None) for `Exec::env_remove`"""
     rng = SplitMix64(ctx.seed ^ 0xe19)
-    names = ["VERIF_A", "VERIF_B1", "_V", "VERIF_LONG_NAME"]
-    vals = ["two words", "", "x", "a:b", "k=v", "it's", "$HOME", "a\nb", "*", " ", "\\", "'", "\"", "`id`", ";", "#c", "~", "é"]
+    names = ENV_NAMES
+    vals = ["two words", "", "x", "a:b", "k=v", "it's", "$HOME", "a\nb", "*", " ", "\\", "'", "\"", "`id`", ";", "#c", "~", "é", "1", "keep me"]
     out = []
     for v in vals:
         out.append(([("VERIF_A", v)], ["prog", "arg", v]))
-    for _ in range(60 if ctx.tier == "quick" else 1500):
-        env = [(rng.choice(names), rng.choice(vals) if rng.below(2) else rand_arg(rng)) for _ in range(1 + rng.below(3))]
+    # directed: same value as the parent's (not printed), removed variable of the parent (`NAME=`), set twice, set then removed,
+    # removed then set, a variable the parent lacks removed (nothing to print)
+    out += [([("VERIF_B1", "x")], ["prog"]), ([("VERIF_OLD", None)], ["prog", "a b"]), ([("VERIF_A", "1"), ("VERIF_A", "2 3")], ["prog"]),
+            ([("VERIF_A", "1"), ("VERIF_A", None)], ["prog"]), ([("VERIF_OLD", None), ("VERIF_OLD", "new")], ["prog"]),
+            ([("VERIF_LONG_NAME", None)], ["prog"]), ([("VERIF_KEEP", None), ("VERIF_B1", None), ("_V", "")], ["prog", ""])]
+    for _ in range(80 if ctx.tier == "quick" else 2500):
+        env = []
+        for _ in range(1 + rng.below(4)):
+            n = rng.choice(names)
+            env.append((n, None) if rng.below(5) == 0 else (n, rng.choice(vals) if rng.below(2) else rand_arg(rng)))
         out.append((env, [rng.choice(NAMES[:5])] + [rand_arg(rng) for _ in range(rng.below(4))]))
     return out
 
@@ -139,7 +154,7 @@ def check(ctx):
     ctx.assumptions += ["program name is not an sh reserved word (known finding C19:command-is-sh-reserved-word)",
                         "command position is exercised for program names without '/' that are not sh builtins (. : [ printf ...), "
                         "through a PATH of links to an argv dumper",
-                        "environment overrides (K=V prefixes) are judged by the real sh only: the Lean shell-side specification refuses an unquoted `=`",
+                        "environment overrides: variable names are shell names (c19_env_roundtrip's hypothesis; a name that is not one cannot be assigned by sh at all)",
                         "arguments are valid Unicode without NUL"]
     if not ctx.cargo_build():
         return
@@ -174,17 +189,19 @@ def check(ctx):
             return ("sh " if for_model else f"sha {k} ") + " ".join(hx(a) for a in argv)
         if kind == "she":
             env, argv = c
-            return "she " + ",".join(f"{hx(k)}:{hx(v)}" for k, v in env) + " " + " ".join(hx(a) for a in argv)
+            cur = (",".join(f"{hx(k)}:{hx(v)}" for k, v in CUR_ENV) + " ") if for_model else ""
+            return "she " + cur + ",".join(f"{hx(k)}:" + ("-" if v is None else hx(v)) for k, v in env) + " " + " ".join(hx(a) for a in argv)
         if kind == "sh":
             return "sh " + " ".join(hx(a) for a in c)
         return "shp " + " / ".join(" ".join(hx(a) for a in st) for st in c)
     text = "".join(req(k, c) + "\n" for k, c in cases)
-    impl = subprocess.run([hplain, "sh"], input=text.encode(), stdout=subprocess.PIPE).stdout.decode().splitlines()
-    # environment overrides are outside the Lean renderer model (its shell-side specification refuses an unquoted `=`):
-    # those cases are judged by the real sh only
-    model_text = "".join(req(k, c, True) + "\n" for k, c in cases if k != "she")
-    model_it = iter(ctx.run_driver(model_text))
-    model = [None if k == "she" else next(model_it, "missing") for k, c in cases]
+    # the rendering process gets a small fixed environment: what `to_cmdline_lossy` prints for `env = Some(_)` depends on it
+    impl = subprocess.run([hplain, "sh"], input=text.encode(), stdout=subprocess.PIPE, env=dict(CUR_ENV)).stdout.decode().splitlines()
+    # environment overrides are part of the Lean renderer model too (`Sh.toCmdlineEnv`, told the parent's environment)
+    model_text = "".join(req(k, c, True) + "\n" for k, c in cases)
+    model = ctx.run_driver(model_text)
+    model += ["missing"] * (len(cases) - len(model))
+    cov["env_override_cases"] = len(envc)
     if len(impl) != len(cases) or "missing" in model:
         ctx.broken_correspondence({"what": f"answer count mismatch impl={len(impl)} model={len(model)} cases={len(cases)}"})
         return
@@ -224,8 +241,9 @@ def check(ctx):
             k, c = "sh", c[1]
         if k == "she":
             # the assignments must stay assignments: sh has to start the program itself, with its arguments
+            # and (spec side) the shell must see the printed assignments with their values: `Sh.parseWithEnv` against the real sh
             if link(c[1][0]):
-                reqs.append(f"cmds {shdir} {t}"); meta.append(("cmds-env", [c[1]], t))
+                reqs.append(f"cmdse {shdir} {','.join(ENV_NAMES)} {t}"); meta.append(("cmds-env", [c[1]], t))
             continue
         if k == "sh":
             reqs.append(f"words {t}"); meta.append(("words", c, t))
@@ -256,7 +274,7 @@ def check(ctx):
         if mode in ("cmds", "frag-cmds", "cmds-env"):
             r, s = canon_cmds(r), canon_cmds(s)
         # (C) spec vs real sh
-        skip_spec = mode == "cmds-env"
+        skip_spec = False
         if mode == "cmds" and any(st[0] in BASH_ONLY for st in c):
             skip_spec = True
         if not skip_spec and r != "unrepresentable":
@@ -281,6 +299,14 @@ def check(ctx):
         elif mode in ("cmds", "cmds-env"):
             dist["oracle_cmds"] += 1
             want = canon_cmds("some " + " / ".join(" ".join(hx(a) for a in st) for st in c))
+            if mode == "cmds-env" and r.startswith("some "):
+                # the oracle judges the program and its arguments; the values the program saw for the variables ride behind them
+                # (`=NAME=value` items) and are compared with the specification above
+                items = r[5:].split(" ")
+                n_env = len(items) - len(c[0])
+                if n_env >= 0 and all(unhx(x).startswith(b"=") for x in items[len(c[0]):]):
+                    dist["env_items_seen_by_program"] = dist.get("env_items_seen_by_program", 0) + n_env
+                    r = canon_cmds("some " + " ".join(items[:len(c[0])]))
             if r != want and r != "unrepresentable":
                 res = [st[0] for st in c if st[0] in POSIX_RESERVED]
                 sig = "command-is-sh-reserved-word" if res else None
